@@ -36,6 +36,19 @@ This file is part of libECBUFR.
 
  static  void   arr_allocate( Array *arr, int len );
 
+#ifdef LIBECBUFR_VERIF
+long bufr_verif_live[BUFR_VK_NKINDS];
+
+void bufr_verif_counts( long *out, int n )
+   {
+   int i;
+
+   for (i = 0; i < n ; i++)
+      out[i] = (i < BUFR_VK_NKINDS) ? bufr_verif_live[i] : 0;
+   }
+#endif
+
+
 
 
 /**
@@ -153,6 +166,9 @@ This file is part of libECBUFR.
 
     if (grow > 0) {
       arr = (Array *)malloc(sizeof(Array));
+#ifdef LIBECBUFR_VERIF
+   bufr_verif_live[BUFR_VK_ARRAY]++;
+#endif
 
       if( arr == NULL )
       {
@@ -171,6 +187,9 @@ This file is part of libECBUFR.
     } else {
       int msize = sizeof(Array)+len*size;
       arr = (Array *)malloc(msize);
+#ifdef LIBECBUFR_VERIF
+   bufr_verif_live[BUFR_VK_ARRAY]++;
+#endif
       arr->msize  = msize;
       arr->eles = (char *)arr + sizeof(Array);
       arr->total = len;
@@ -234,6 +253,9 @@ This file is part of libECBUFR.
     if (arr->grow > 0)
        if( arr->eles != NULL ) free( arr->eles );
     free( arr );
+#ifdef LIBECBUFR_VERIF
+   bufr_verif_live[BUFR_VK_ARRAY]--;
+#endif
 
     *pobj = NULL;
     }
